@@ -27,6 +27,9 @@ func propC11(c *Ctx, r *Report) {
 	r.floor("flag.nest", 2)
 	c.runForHeader(r, "parse.forheader", "wgsl/internal/parser")
 	r.floor("parse.forheader", 8)
+	r.Clauses = append(r.Clauses, "sizes are not negative (E49): a helper that returns the constant evaluator's signed result converted to an unsigned type tests its sign first")
+	c.runSizeSignCheck(r, "size.signcheck", inPkgs("wgsl", "ir"))
+	r.floor("size.signcheck", 3)
 	r.Clauses = append(r.Clauses, "type lookups report (E49): no lookup of a user-written type uses its result only on success and drops the error")
 	c.runErrNilOnly(r, "errflow.nilonly", inPkgs("wgsl"), nil)
 	r.floor("errflow.usertype-lookups", 20)
